@@ -40,8 +40,9 @@ from __future__ import annotations
 from fractions import Fraction
 from pathlib import Path
 
-LIMS = [-2, -1, 0, 1, 2, 3, 4, 5]
+LIMS = [-2, -1, 0, 1, 2, 3, 4, 5, 8, 17, 33]      # small budgets densely, a few large ones (a bound that only gives way past a threshold)
 SLIMS = [-2, -1, 0, 1, 2, 3]
+SBIG = [(8, 1), (1, 8), (17, 2), (2, 17), (33, 0), (0, 33)]
 CAPN = 40
 
 MARKER_PROBES = [
@@ -664,7 +665,7 @@ def render(cl, rs, nu, providers):
           [f"({_int(n)}, {_opt(heal_point(cl, S, n))})" for n in LIMS])
     table("swarmBudgetTable", "(max_regenerations, max_steps_per_worker) ↦ (workers spawned, steps on each)",
           "(Int × Int) × Option (Nat × Nat)",
-          [f"(({_int(a)}, {_int(b)}), {_opt(swarm_point(rs, a, b), _pair)})" for a in SLIMS for b in SLIMS])
+          [f"(({_int(a)}, {_int(b)}), {_opt(swarm_point(rs, a, b), _pair)})" for a, b in [(a, b) for a in SLIMS for b in SLIMS] + SBIG])
     table("toolBudgetTable", "max_iterations ↦ (tool rounds, plain completions) against a provider that always asks for a tool",
           "Int × Option (Nat × Nat)", [f"({_int(n)}, {_opt(tool_point(nu, providers, n), _pair)})" for n in LIMS])
     table("markerTable", "worker output ↦ supervise() reported success on it", "String × Option Bool",
@@ -726,7 +727,7 @@ def render(cl, rs, nu, providers):
 def run(lean_dir: Path, write_if_changed, cl, rs, nu, providers) -> list[dict]:
     text, info = render(cl, rs, nu, providers)
     changed = write_if_changed(Path(lean_dir) / "Operon/Gen/LoopTables.lean", text)
-    points = len(LIMS) * 2 + len(SLIMS) ** 2 + len(MARKER_PROBES) + len(PATTERNS) * len(THRS) + 3 + len(TRACES) + len(PREFIX_LENS) + FEED_N + 6 + 4 + 5 + 7
+    points = len(LIMS) * 2 + len(SLIMS) ** 2 + len(SBIG) + len(MARKER_PROBES) + len(PATTERNS) * len(THRS) + 3 + len(TRACES) + len(PREFIX_LENS) + FEED_N + 6 + 4 + 5 + 7
     return [{"id": "eval-loops", "facts_changed": bool(changed), "points": points, "poisoned": info["poisoned"]}]
 
 
